@@ -308,6 +308,23 @@ def variants(case, pidx: int):
                     lits.append(repr(x))        # exact both as xs:decimal (2.0+) and as a 1.0 number
         if len(lits) == len(args) - 1:
             out.append(('substring($a0,' + ','.join(lits) + ')', {'a0': var['a0']}, 'literal-numbers', None))
+            # the same numbers arriving as attribute nodes (number() / cast of xs:untypedAtomic) ...
+            import xml.etree.ElementTree as ET
+            a = ET.Element('a')
+            for name, lit in zip('pq', lits):
+                a.set(name, lit)
+            out.append(('substring($a0,' + ','.join('@' + n for n, _ in zip('pq', lits)) + ')', {'a0': var['a0']},
+                        'attribute-position', a, 'u'))
+            # ... and, for XPath 1.0, as strings (number() conversion; known finding F09j)
+            if pidx == 0:
+                sv = dict({'a0': var['a0']}, **{n: lit for n, lit in zip('pq', lits)})
+                out.append(('substring($a0,' + ','.join('$' + n for n, _ in zip('pq', lits)) + ')', sv,
+                            'string-position', None, 's'))
+    if pidx >= 2 and case.get('fnitem') and '(' in e and op != 's2cp':   # (s2cp: a one-item result is ambiguous)
+        # the same call through a named function reference: the function token then carries its own context
+        # (`if self.context is not None: context = self.context` in every evaluate method)
+        i = e.index('(')
+        out.append((f'{e[:i]}#{e[i:].count(",") + 1}{e[i:]}', var, 'function-item', None))
     if op in NODE_OPS and isinstance(args[0], list) and case.get('nodeforms'):
         elem, attr = node_roots(args[0])
         rest = {k: v for k, v in var.items() if k != 'a0'}
@@ -315,18 +332,29 @@ def variants(case, pidx: int):
         out.append((e.replace('$a0', '@x'), rest, 'attribute-argument', attr))
         if op == 'length':
             out.append(('string-length()', {}, 'context-item', elem))
+            out.append(('string-length(string())', {}, 'context-item', elem))
         if op == 'normalize':
             out.append(('normalize-space()', {}, 'context-item', elem))
     return out
 
 
-def run_impl(case, pidx: int, e=None, var=None, root=None) -> str:
+def extra_lines(case) -> dict:
+    """driver lines of the forms that have their own model entry (position arguments by kind)"""
+    if case['op'] in ('substring2', 'substring3'):
+        base = [case['op'] + 'x', cps_line(case['args'][0])]
+        return {k: '|'.join(base + [k + ':' + num_line(n) for n in case['args'][1:]]) for k in ('u', 's')}
+    return {}
+
+
+def run_impl(case, pidx: int, e=None, var=None, root=None, unwrap=False) -> str:
     E = env()
     if e is None:
         e, var = expr_of(case)
     try:
-        return canon(E['ep'].select(E['root'] if root is None else root, e, parser=E['parsers'][pidx],
-                                    variables=var))
+        r = E['ep'].select(E['root'] if root is None else root, e, parser=E['parsers'][pidx], variables=var)
+        if unwrap and isinstance(r, list) and len(r) == 1:
+            r = r[0]       # a dynamic function call yields its result as a sequence
+        return canon(r)
     except Exception as ex:  # every exception is part of the observed behaviour
         code = getattr(ex, 'code', None)
         from elementpath.exceptions import ElementPathError
@@ -400,7 +428,8 @@ def run_lxml(case):
         r = x(E['lroot'], **lv)
     except Exception:
         return None   # control characters, surrogates, NUL: not XML-compatible for lxml
-    LXML_SHAPES[e] = LXML_SHAPES.get(e, 0) + 1
+    key = e + ('   [a number/boolean as argument]' if case['op'] == 'conv' else '')
+    LXML_SHAPES[key] = LXML_SHAPES.get(key, 0) + 1
     if isinstance(r, bool):
         return canon(r)
     if isinstance(r, float):
@@ -626,6 +655,8 @@ def gen_case(rng, ops=None):
     case = {'op': op, 'args': args}
     if op in NODE_OPS and isinstance(args[0], list) and rng.random() < 0.25:
         case['nodeforms'] = True       # also evaluate with the first argument given as a node / the context item
+    if rng.random() < 0.2:
+        case['fnitem'] = True          # also call through a named function reference (3.0+)
     return case
 
 
@@ -788,10 +819,11 @@ def compare(run: Run, cases: list) -> None:
     E = env()
     lines = [case_line(c) for c in cases]
     lines1 = [case_line(c, True) for c in cases]
-    uniq = sorted(set(lines) | set(lines1))
+    extras = [extra_lines(c) for c in cases]
+    uniq = sorted(set(lines) | set(lines1) | {l for ex in extras for l in ex.values()})
     ans = dict(zip(uniq, run.driver('C09', uniq)))
     st = run.stats
-    for case, line, line1 in zip(cases, lines, lines1):
+    for case, line, line1, extra in zip(cases, lines, lines1, extras):
         op = case['op']
         site = OPS[op][4] if op != 'conv' else 'elementpath/xpath_tokens/base.py XPathToken.string_value'
         if '|' not in ans[line] or '|' not in ans[line1]:
@@ -811,20 +843,23 @@ def compare(run: Run, cases: list) -> None:
             trig = False
         for pidx in pidxs:
             pname = E['parsers'][pidx].__name__
-            model, spec = ans[line1 if pidx == 0 else line].split('|')[:2]
-            for e, var, form, root in variants(case, pidx):
-                impl = run_impl(case, pidx, e, var, root)
+            model0, spec0 = ans[line1 if pidx == 0 else line].split('|')[:2]
+            for e, var, form, root, *key in variants(case, pidx):
+                model, spec, tags = model0, spec0, (['F09g'] if (trig and pidx == 0) else [])
+                if key:
+                    model, spec, flag = ans[extra[key[0]]].split('|')
+                    tags = ['F09j'] if (flag == '1' and pidx == 0 and key[0] == 's') else []
+                impl = run_impl(case, pidx, e, var, root, unwrap=(form == 'function-item'))
                 st.count('parser:' + pname)
                 if form != 'call':
                     st.count('form:' + form)
                 if impl.startswith('ERR'):
                     st.count('result:' + impl)
                 c = dict(case, parser=pname, expr=e)
-                tags = ['F09g'] if (trig and pidx == 0) else []
                 if impl != spec:
                     run.disagree(Disagreement(c, impl, model, spec, what=f'{op}-vs-F&O', site=site, tags=tags))
                     if tags:
-                        st.count('finding:F09g')
+                        st.count('finding:' + tags[0])
                 if impl != model:
                     if impl == spec or tags:
                         run.disagree(Disagreement(c, impl, model, None if tags else spec, what=f'{op}-model', site=site))
